@@ -394,6 +394,16 @@ def getstateDeriv (P : Params) (pd : Digits × Digits) (antimask : Option (List 
     (getstate1 P { d with digits := some (d.digits.getD (pd.2, pd.2)), vals := vals,
                           mask := .scalar false }).1
 
+/-- `_validate_pickle_digits` (pickler.py:319-347) for ONE entry: a number is clipped to the range single..double
+    (6.924 .. 15.654 digits, tags in thousandths) unless THAT entry's reference is a number -/
+def clampDigit (refIsNumber : Bool) : Digits → Digits
+  | .num t => if refIsNumber then .num t else .num (min (max 6924 t) 15654)
+  | d => d
+
+/-- … entry by entry: entry `k` of the digits looks at entry `k` of the references -/
+def validateDigits (p : Digits × Digits) (refIsNumber : Bool × Bool) : Digits × Digits :=
+  (clampDigit refIsNumber.1 p.1, clampDigit refIsNumber.2 p.2)
+
 /-- `set_pickle_digits` (pickler.py:134-200) after validation of the two pairs: the object gets the pair, every
     derivative it carries AT THAT MOMENT gets the second entry twice (a derivative is pickled as an object of its
     own and reads entry 0).  References are not modelled (opaque to the structural model). -/
